@@ -141,6 +141,15 @@ CHECKS.update({
    design_ref="DESIGN.md §3 C07"),
 })
 
+CHECKS.update({
+ "C16": dict(
+   category="exploration",
+   text="The real Core::listen on loopback (TLS, HTTP/1.1 + HTTP/2) with the metrics listener enabled: seeded histories of 6-14 steps (open/close session, open tunnel to a transfer server, failed connect, asymmetric transfer of N+8 bytes up / M bytes down, graceful close, reset, _udp2 datagrams on up to 3 flows, close session) plus dedicated expiry histories under T_tcp = 2.5 s / T_udp = 2 s. After every step the monitor waits for quiescence (matching or 12 identical snapshots), compares client_sessions / outbound_tcp_sockets / outbound_udp_sockets / inbound and outbound byte counters per protocol with its model (asymmetric transfers make a swap visible), then fetches /metrics over HTTP and compares every documented series with the in-process value, and /health-check; at the end all gauges must be back to zero.",
+   note="Trusted: the model in harness/src/props/c16.rs; label values compared case-insensitively. HTTP/3 sessions not exercised.",
+   technique="runtime monitoring: model-vs-gauge comparison at quiescent points over real loopback sessions + scrape of the real metrics listener",
+   design_ref="DESIGN.md §3 C16"),
+})
+
 NOT_YET = "check not built yet in this session (designed in DESIGN.md §3; harness work in progress)"
 
 def main():
